@@ -18,6 +18,8 @@ mod ctx;
 mod findings;
 mod judge;
 mod libapi;
+mod replay;
+mod shard;
 mod trace;
 
 use ctx::{Ctx, Tier};
@@ -76,6 +78,13 @@ fn real_main(args: Vec<String>) -> i32 {
                 o => println!("library: {}", o.brief()),
             }
             0
+        }
+        Some("replay") => replay::run(args.get(2).map(|s| s.as_str()).unwrap_or("")),
+        Some("shard") => {
+            let prop = args.get(2).cloned().unwrap_or_default();
+            let i: usize = args.get(3).and_then(|s| s.parse().ok()).unwrap_or(0);
+            let n: usize = args.get(4).and_then(|s| s.parse().ok()).unwrap_or(1);
+            shard::run(&prop, i, n)
         }
         Some("worker") => {
             // worker <prop> <family> <tier> <from> <to>
